@@ -32,6 +32,7 @@ ASSUMPTIONS = [
     "a forked child of the (never used) worker image is a pristine process state",
     "computation_time and printed output are not metrics and are ignored",
     "the baseline is what a fresh evaluator in a fresh process reports for the same input and configuration",
+    "module-level / default-argument containers that change through use are counted in the evidence but are not violations by themselves (a cache that changes no result is allowed)",
 ]
 BUDGET = {"quick": 300, "thorough": 3000}
 
@@ -174,7 +175,7 @@ def _baseline_child(configs):
     """fresh process: per configuration keys, yaml, results per input, aggregator header/rows"""
     from panoptica import Panoptica_Aggregator
 
-    out = {}
+    out = {"mutable": mutable_state()}
     for c in configs:
         b = {}
         ev = new_evaluator(c)
@@ -196,7 +197,6 @@ def _baseline_child(configs):
             rows = agg.parse_tsv(vfs.fs.files["/vfs/d/out.tsv"])
             b[("agg", lt)] = (rows[0], rows[1])
         out[c] = b
-    out["mutable"] = mutable_state()
     return out
 
 
@@ -300,10 +300,12 @@ def _history_child(hist, base):
                     pass
         except Exception as e:
             viol.append((f"C15:operation_raised:{op[0]}:{type(e).__name__}", f"{where} raised {e!r}"))
+        # module-level / default-argument containers that change through use are only *reported* (evidence counter): a cache that
+        # does not change any result is not a violation of the statement; what matters is judged above, operation by operation
         ms = mutable_state()
         if ms != base["mutable"]:
             changed = sorted(k for k in set(ms) | set(base["mutable"]) if ms.get(k) != base["mutable"].get(k))
-            viol.append((f"C15:shared_mutable_state_changed:{changed[0].split('.')[-2] if changed else ''}", f"{where} changed module-level / default-argument state: {changed[:3]}"))
+            viol.append(("INFO:shared_mutable_state_changed", ",".join(changed[:3])))
             base = dict(base, mutable=ms)
     return viol
 
@@ -446,6 +448,10 @@ def run_case(case, acc):
         acc.outcome(tuple(v[0] for v in viol))
         if acc.evaluations % 1499 == 1:
             acc.sample({"history": [list(o) for o in hist]})
+        info = [v for v in viol if v[0].startswith("INFO:")]
+        viol = [v for v in viol if not v[0].startswith("INFO:")]
+        for sig, msg in info:
+            acc.count("histories_changing_module_level_state")
         for sig, msg in viol:
             acc.violation(sig, {**case, "ops": [list(o) for o in hist]}, msg)
         if not viol:
